@@ -403,9 +403,12 @@ def c_text_semantics(spec):
     """the text, read by an independent standard openQASM 2.0 reader, declares the circuit's registers and denotes the
     circuit's operations in an order consistent with the circuit; executed, it prepares the state Sem(C) for every
     measurement record"""
+    return text_semantics_of(build(spec), eff(spec))
+
+
+def text_semantics_of(c, spec):
+    """c_text_semantics for a ready circuit c whose operations (register by register) are those of `spec`"""
     ne, np_, nc = spec["regs"]
-    c = build(spec)
-    spec = eff(spec)
     text = c.to_openqasm()
     try:
         prog = Q.parse(text)
@@ -728,6 +731,239 @@ def compiled_case(spec):
     return None
 
 
+# ------------------------------------------------------------------------------------------------ (H4/H2/H1) export after edit histories
+_LONG = {"I": "Identity", "H": "Hadamard", "P": "Phase", "PD": "PhaseDagger", "X": "SigmaX", "Y": "SigmaY", "Z": "SigmaZ"}
+
+
+def spec_of_model(m):
+    """C14 circuit spec of a refsem.dagmodel.WireModel (operations in a linear extension of the wire orders)"""
+    ops_ = []
+    for u in m.linear_order():
+        d = m.ops[u]
+        k = d[0]
+        if k == "g":
+            ops_.append(["g", _LONG[d[1]], d[2][0], d[2][1]])
+        elif k == "w":
+            ops_.append(["w", [_LONG[x] for x in d[1]], d[2][0], d[2][1]])
+        elif k in CLS2:
+            ops_.append([k, d[1][0], d[1][1], d[2][0], d[2][1]])
+        elif k in CLSC:
+            ops_.append([k, d[1][0], d[1][1], d[2][0], d[2][1], d[3]])
+        else:
+            ops_.append(["mz", d[1][0], d[1][1], d[2]])
+    return {"regs": [m.n["e"], m.n["p"], m.n["c"]], "ops": ops_}
+
+
+def _frame(c):
+    """what an export may not change: the graph (nodes, op objects, keyed edges with attributes), the indexes, the
+    registers and the accumulated openQASM header material"""
+    g = c.dag
+    return (
+        [(n, id(g.nodes[n]["op"]), type(g.nodes[n]["op"]).__name__, tuple(g.nodes[n]["op"].q_registers), tuple(g.nodes[n]["op"].q_registers_type),
+          tuple(g.nodes[n]["op"].c_registers), tuple(x.__name__ for x in getattr(g.nodes[n]["op"], "operations", []) or []),
+          tuple(g.nodes[n]["op"].labels)) for n in g.nodes],
+        [(u, v, k, a.get("reg"), a.get("reg_type")) for u, v, k, a in g.edges(keys=True, data=True)],
+        {k: list(v) for k, v in c.node_dict.items()}, {k: list(v) for k, v in c.edge_dict.items()},
+        (c.n_emitters, c.n_photons, c.n_classical), list(c.openqasm_imports), list(c.openqasm_defs), dict(c.openqasm_symbols),
+    )
+
+
+def edit_history_run(inp, probe=None):
+    """the real circuit and its specification after the seeded edit history (C12 driver: add, insert_at at any position,
+    remove_op, replace_op, unwrap_nodes, group_one_qubit_gates, remove_identity, copy).  `probe(r)` is called after
+    every edit (it decides itself whether to export); it returns a symptom or None."""
+    from bounded.C12 import Run, focus_alphabet, focus_now, op_alphabet
+    from refsem import dagmodel as dm
+
+    rng = np.random.default_rng([inp["seed"], 1414])
+    r = Run(inp["regs"], deep=False)
+    r.check("construction")
+    for _ in range(inp["len"]):
+        m = r.m
+        n_ops = len(m.ops)
+        if "focus" in inp:
+            Qf, Cf = focus_now(m, inp["focus"], inp["cfocus"])
+            A = focus_alphabet(Qf, Cf, "A", True)
+        else:
+            A = op_alphabet(m.n, "A", True)
+        n_meas = sum(1 for d in m.ops.values() if d[0] in ("mz", "ccx", "ccz", "mcr"))
+        x = rng.random()
+        if x < (0.55 if n_ops < 9 else 0.2):
+            d = A[rng.integers(len(A))]
+            classical = d[0] in ("mz", "ccx", "ccz", "mcr")
+            if classical and n_meas >= 3:
+                continue  # the executed-semantics check enumerates all measurement records
+            if classical or rng.random() < 0.3:
+                ed = ["add", d]  # operations naming a classical register are placed by add (insert_at does not wire them
+                # to the classical register, so their mutual order would not be fixed by the circuit)
+            else:
+                ed = ["ins", d, [int(rng.integers(len(m.wires[dm.key(q)]) + 1)) for q in dm.qregs(d)]]
+        elif x < 0.75:
+            ed = ["rm", int(rng.integers(max(1, n_ops)))]
+        elif x < 0.85:
+            ids = m.op_ids()
+            if not ids:
+                continue
+            k = int(rng.integers(len(ids)))
+            old = m.ops[ids[k]]
+            cands = {"g": [["g", "Z"], ["w", ["P", "H"]], ["g", "I"]], "w": [["g", "Y"], ["w", ["X", "P"]]], "cx": [["cz"]], "cz": [["cx"]],
+                     "ccx": [["mcr"], ["ccz"]], "ccz": [["ccx"]], "mcr": [["ccx"]], "mz": [["mz"]]}[old[0]]
+            a = cands[rng.integers(len(cands))]
+            ed = ["rep", k, a + [None] if a[0] in ("g", "w") else a]
+        else:
+            ed = [["unwrap"], ["rmid"], ["group"], ["copy"]][int(rng.integers(4))]
+        s = r.apply(ed)
+        if s:
+            raise RuntimeError("C12 failure while editing the circuit: " + s)
+        if probe is not None:
+            s = probe(r)
+            if s:
+                r.symptom = s
+                return r
+    return r
+
+
+def _export_import_ok(r, tag):
+    """both exports of r.c, imported again, carry the specification's operations on every quantum register"""
+    spec = spec_of_model(r.m)
+    if not (judged("qasm", spec) and judged("json", spec)):
+        return None
+    try:
+        c2 = CircuitDAG.from_openqasm(r.c.to_openqasm())
+        c3 = CircuitDAG.from_json(r.c.to_json())
+    except Exception as e:  # noqa: BLE001
+        return f"{tag}: import of the export raised {type(e).__name__}: {str(e)[:160]}"
+    return compare_circuit(spec, c2, f"{tag}: openQASM round trip") or compare_circuit(spec, c3, f"{tag}: JSON round trip")
+
+
+@S.item("export.after_edit_history", site=_SITE_EXP + " / CircuitDAG.to_json",
+        bound="seeded edit histories (quick 800 x 18 edits, thorough 4000 x 24) of the C12 driver - add, insert_at at any position, "
+              "remove_op, replace_op, unwrap_nodes, group_one_qubit_gates, remove_identity, copy - on <= (3e,3p,2c) and, every 4th, on "
+              "circuits with 11..13 registers per type (ops on indices 1, 9..12); gates H,P,X,Y,Z,I and wrappers of them (no "
+              "PhaseDagger: cannot meet known finding C14-F1b), <= 3 measuring operations, classical-register operations placed by "
+              "add; after a third of the edits both exports are made and checked (export - edit - export on one object).  At the end: openQASM and JSON export + import give the specification's operations on every quantum register; "
+              "the text read by the independent openQASM reader denotes them in a consistent order and prepares the same state; "
+              "every export is repeated and must give the same text / dict; no export or import changes the circuit (graph, "
+              "indexes, registers, header material compared before/after) or the dict handed to from_json",
+        clause="export / import of circuits produced by edit histories (node creation order differs from circuit order); export is "
+               "deterministic and does not modify the circuit")
+def edited_case(inp):
+    import copy as _copy
+
+    prng = np.random.default_rng([inp["seed"], 141414])
+
+    def probe(rr):
+        # export - edit - export: a third of the edits are followed by both exports (checked), on the same object
+        if prng.random() < 0.33:
+            return _export_import_ok(rr, f"after edit #{len(rr.trace)} {rr.trace[-1]} (previous {rr.trace[-3:-1]})")
+        return None
+
+    r = edit_history_run(inp, probe)
+    if getattr(r, "symptom", None):
+        return r.symptom
+    c = r.c
+    spec = spec_of_model(r.m)
+    for fam in ("qasm", "json", "sem"):
+        if not judged(fam, spec):
+            return None  # an operation kind whose 1-op item fails on this tree (flood control, see module docstring)
+    f0 = _frame(c)
+    t1 = c.to_openqasm()
+    j1 = c.to_json()
+    j1_text = json.dumps(j1, default=str)
+    t2 = c.to_openqasm()
+    j2_text = json.dumps(c.to_json(), default=str)
+    if t1 != t2:
+        return "two to_openqasm() calls on the edited circuit differ"
+    if j1_text != j2_text:
+        return "two to_json() calls on the edited circuit differ"
+    if _frame(c) != f0:
+        return "an export modified the circuit (graph / indexes / registers / openQASM header material)"
+    try:
+        c2 = CircuitDAG.from_openqasm(t1)
+    except Exception as e:  # noqa: BLE001
+        return f"from_openqasm(to_openqasm(C)) raised {type(e).__name__}: {str(e)[:160]}"
+    bad = compare_circuit(spec, c2, "openQASM round trip after the edit history")
+    if bad:
+        return bad
+    d = json.loads(j1_text)
+    d0 = _copy.deepcopy(d)
+    try:
+        c3 = CircuitDAG.from_json(d)
+    except Exception as e:  # noqa: BLE001
+        return f"from_json(to_json(C)) raised {type(e).__name__}: {str(e)[:160]}"
+    if d != d0:
+        return "from_json modified the dict it was given"
+    bad = compare_circuit(spec, c3, "JSON round trip after the edit history")
+    if bad:
+        return bad
+    try:
+        c4 = CircuitDAG.from_json(j1)
+    except Exception as e:  # noqa: BLE001
+        return f"from_json(to_json(C)) [dict] raised {type(e).__name__}: {str(e)[:160]}"
+    bad = compare_circuit(spec, c4, "JSON round trip [dict] after the edit history")
+    if bad:
+        return bad
+    bad = text_semantics_of(c, spec)
+    if bad:
+        return "after the edit history: " + bad
+    if _frame(c) != f0 or c.to_openqasm() != t1 or json.dumps(c.to_json(), default=str) != j1_text:
+        return "exports / imports changed the circuit or a later export differs"
+    bad = r.check("exports")
+    if bad:
+        return bad + " (an export modified the circuit)"
+    # an identically rebuilt history (without the intermediate exports) exports identically
+    r2 = edit_history_run(inp)
+    if r2.c.to_openqasm() != t1 or json.dumps(r2.c.to_json(), default=str) != j1_text:
+        return "an identically rebuilt edit history exports differently"
+    # the imported circuits export the same operations again (second generation)
+    try:
+        c5 = CircuitDAG.from_openqasm(c2.to_openqasm())
+        c6 = CircuitDAG.from_json(c3.to_json())
+    except Exception as e:  # noqa: BLE001
+        return f"re-export of an imported circuit cannot be imported: {type(e).__name__}: {str(e)[:160]}"
+    return compare_circuit(spec, c5, "second openQASM round trip") or compare_circuit(spec, c6, "second JSON round trip")
+
+
+IDX_WIDE = [12, 20, 101]
+PAIRS_WIDE = [(12, 20), (20, 12), (12, 101), (101, 10), (1, 12), (12, 1)]
+
+
+def wide_specs(atom):
+    """single-operation circuits of the atom on register indices 12, 20 and 101"""
+    k = atom[0]
+    out = []
+    if k in ("g", "w"):
+        out = [[k, atom[1], atom[2], r] for r in IDX_WIDE]
+    elif k == "mz":
+        out = [["mz", atom[1], r, cr] for r in IDX_WIDE for cr in IDX_WIDE]
+    else:
+        for c, t in PAIRS_WIDE:
+            if k in CLS2:
+                out.append([k, atom[1], c, atom[2], t])
+            else:
+                for cr in (12, 101):
+                    out.append([k, atom[1], c, atom[2], t, cr])
+    return [{"regs": min_regs([o]), "ops": [o]} for o in out]
+
+
+@S.item("roundtrip.wide_register_indices", site=_SITE_IMP + " / from_json / to_openqasm",
+        bound="fixed sample, seed-independent: every atom of the 1-op items (%d) whose 1-op item holds on the current tree (so it cannot "
+              "meet known finding C14-F1b), placed on register indices {12, 20, 101} (one-qubit ops, MeasurementZ x classical {12,20,101}) "
+              "/ (control,target) in {(12,20),(20,12),(12,101),(101,10),(1,12),(12,1)} x classical {12,101}: openQASM round trip, JSON "
+              "round trip and standard reading of the text" % len(ALL_ATOMS),
+        exhaustive=True,
+        clause="round trip and text semantics on registers with index 12, 20 (two digits) and 101 (three digits)")
+def wide_case(atom):
+    for fam in ("qasm", "json", "sem"):
+        if not atom_ok(fam, atom):
+            continue
+        for spec in wide_specs(atom):
+            r = CONTRACTS[fam](spec)
+            if r is not None:
+                return f"op {json.dumps(spec['ops'][0])} [{fam}]: {r}"
+    return None
+
+
 # ------------------------------------------------------------------------------------------------ domains
 def instances(regs, cregs, wrappers=WRAPPERS):
     qs = [(t, r) for t in "ep" for r in regs]
@@ -833,6 +1069,14 @@ def random_spec(rng, atoms_ok, max_meas=None, small=False, edits=True):
     return spec
 
 
+HI_EDIT = [
+    ((12, 13, 12), [["e", 1], ["e", 11], ["p", 10], ["p", 12]], [1, 11]),
+    ((11, 11, 11), [["e", 10], ["p", 1], ["p", 10]], [1, 10]),
+    ((2, 12, 1), [["e", 0], ["p", 1], ["p", 11]], [0]),
+    ((12, 1, 12), [["e", 1], ["e", 10], ["e", 11]], [10]),
+]
+
+
 def run(tier, seed):
     rng = np.random.default_rng(seed)
     thorough = tier == "thorough"
@@ -874,6 +1118,17 @@ def run(tier, seed):
     S.map("export.deterministic", det)
     batch = one[::3] + pairs[::(211 if not thorough else 97)] + rq[:150]
     S.check("export.deterministic_across_processes", batch)
+
+    # ---- (H3) indices 12, 20, 101 ; (H4/H2/H1) export after edit histories
+    S.map("roundtrip.wide_register_indices", ALL_ATOMS, chunksize=1)
+    eh = []
+    for j in range(4000 if thorough else 800):
+        if j % 4 == 3:
+            regs, focus, cfocus = HI_EDIT[(j // 4) % len(HI_EDIT)]
+            eh.append({"regs": list(regs), "seed": seed * 104729 + j, "len": 24 if thorough else 18, "focus": focus, "cfocus": cfocus})
+        else:
+            eh.append({"regs": list([(2, 1, 1), (1, 2, 2), (3, 3, 2)][j % 3]), "seed": seed * 104729 + j, "len": 24 if thorough else 18})
+    S.map("export.after_edit_history", eh)
 
     # ---- compiled state of the imported circuits (real compiler)
     rc = [random_spec(rng, lambda a: atom_ok("qasm", a) or atom_ok("json", a), max_meas=1, small=True) for _ in range(1200 if thorough else 300)]
